@@ -119,7 +119,7 @@ PROPERTIES = {
     "C03": dict(
         modules=["contracts.c03_arguments", "contracts.c11_clients", "contracts.c06_input_types", "contracts.c06_defaults", "contracts.c07_scalars", "contracts.c13_ws"],
         bounded=[_bounded.lazy("contracts.e2e_variables", "bounded_method_locals"), _bounded.lazy("contracts.e2e_variables", "bounded_variables"),
-                 _bounded.lazy("contracts.c11_multipart", "bounded_separation")],
+                 _bounded.lazy("contracts.c11_multipart", "bounded_separation"), _bounded.lazy("contracts.c11_multipart", "bounded_wire")],
         explanation="variable annotation translator, local-name freshness, run-time value conversion; whole calls by an end-to-end bounded stand-in with graphql-core's variable coercion",
         assumptions=["that dumped JSON coerces to the caller's values is pydantic's and graphql-core's (assumed, sampled by the stand-in)"],
     ),
